@@ -402,6 +402,21 @@ def field_roles(prog, cls):
     return roles
 
 
+def defines(prog, cls, name):
+    """Is `cls` the public class through which method `name` is analysed?  True when cls defines it itself, or
+    inherits it from a private base / mixin without a public class in between offering the same definition
+    (a subclass that merely inherits a public class's method is not analysed again)."""
+    owner, fn = prog.find_method(cls, name)
+    if fn is None:
+        return False
+    if owner is cls:
+        return True
+    if not owner.name.startswith("_"):
+        return False
+    return not any(c is not cls and not c.name.startswith("_") and prog.find_method(c, name)[0] is owner
+                   for c in prog.mro(cls)[1:])
+
+
 def explainer_classes(prog):
     """Concrete classes offering explain_one (discovered, not listed)."""
     out = []
